@@ -38,6 +38,7 @@ inductive Val where
   | prim (name : String)
   | cont (k : List Frame) (w : List Wind) (id : Nat)  -- call/cc: the frames and the winders of the capture
   | dcont (k : List Frame)                  -- shift: the frames up to the nearest delimiter
+  | rcont (k : List Frame)                  -- NOT in S: the primitive call/cc without the winders wrapper (`impl` only)
   | vec (loc : Nat)
   | vecData (items : List Val)
   | box (loc : Nat)
@@ -126,6 +127,7 @@ partial def showVal (store : Array Val) (w : Bool) : Val → String
   | .prim n => "#<function:" ++ n ++ ">"
   | .cont .. => "#<procedure>"
   | .dcont _ => "#<bytecode-closure>"
+  | .rcont _ => "#<continuation>"
   | .vec loc =>
       match store[loc]? with
       | some (.vecData items) => "#(" ++ " ".intercalate (items.map (showVal store w)) ++ ")"
@@ -172,7 +174,7 @@ def primNames : List String :=
    "vector", "make-vector", "vector-ref", "vector-set!", "vector-length", "vector?", "vector->list",
    "box", "unbox", "set-box!", "error", "raise-error", "apply", "call/cc", "call-with-current-continuation",
    "list-tail", "memq", "member", "assq", "assoc", "range", "char?", "string=?",
-   "dynamic-wind", "call-with-exception-handler", "*reset", "*shift"]
+   "dynamic-wind", "call-with-exception-handler", "*reset", "*shift", "%raw-call/cc"]
 
 def intArgs (args : List Val) : Option (List Int) := args.mapM fun | .int n => some n | _ => none
 
@@ -270,7 +272,7 @@ def applyPrim (name : String) (args : List Val) (st : St) : Option (Except Val (
   | "char?", [v] => ok (.bool (match v with | .chr _ => true | _ => false))
   | "vector?", [v] => ok (.bool (match v with | .vec _ => true | _ => false))
   | "void?", [v] => ok (.bool (match v with | .void => true | _ => false))
-  | "procedure?", [v] => ok (.bool (match v with | .clo .. | .prim _ | .cont .. | .dcont _ => true | _ => false))
+  | "procedure?", [v] => ok (.bool (match v with | .clo .. | .prim _ | .cont .. | .dcont _ | .rcont _ => true | _ => false))
   | "void", _ => ok .void
   | "string-append", _ =>
       match args.mapM (fun | .str s => some s | _ => none) with
@@ -497,6 +499,11 @@ def step (c : Ctl) (k : List Frame) (st : St) : Ctl × List Frame × St :=
               let st := if delimIds k != delimIds kt then ev st "mc-cross" else st
               transfer kt wt v k st
          | _ => (.raise (mkErr "arity mismatch (continuation)"), k, st))
+    | .rcont k1 =>
+        -- the primitive continuation: no wind thunks run, `winders` keeps its value
+        (match args with
+         | [v] => (.rt v, k1, ev st "raw-invoke")
+         | _ => (.raise (mkErr "arity mismatch (continuation)"), k, st))
     | .dcont k1 =>
         (match args with
          | [v] => (.rt v, k1 ++ .reset st.nextId :: k, ev { st with nextId := st.nextId + 1 } "dinvoke")
@@ -513,6 +520,7 @@ def step (c : Ctl) (k : List Frame) (st : St) : Ctl × List Frame × St :=
          | "call/cc", [g] | "call-with-current-continuation", [g] =>
             let id := st.nextId + 1
             (.call g [.cont k st.winders id], .ccMark id :: k, ev { st with nextId := id } "capture")
+         | "%raw-call/cc", [g] => (.call g [.rcont k], k, st)
          | "dynamic-wind", [inn, body, out] => (.call inn [], .windIn body out inn :: k, st)
          | "call-with-exception-handler", [h, thunk] => (.call thunk [], .handler h none :: k, st)
          | "*reset", [thunk] => (.call thunk [], .reset st.nextId :: k, ev { st with nextId := st.nextId + 1 } "reset")
@@ -534,9 +542,13 @@ def step (c : Ctl) (k : List Frame) (st : St) : Ctl × List Frame × St :=
     | .whDone _ :: k => (.raise p, k, ev st "mc-cross")     -- an error leaves the handler of a with-handler
     | .reset _ :: k => (.raise p, k, ev st "mc-cross")      -- an error leaves the body of a reset
     | .ccMark i :: k => (.raise p, k, { st with exited := i :: st.exited })
-    | .windBody _ out :: k =>
-        -- error path of dynamic-wind: leave the extent, run `after`, raise again
-        (.call out [], .reraise p :: k, ev { st with winders := st.winders.tail } "exit-error")
+    | .windBody id out :: k =>
+        -- error path of dynamic-wind: leave the extent, run `after`, raise again — if the extent is still
+        -- entered.  (It is not when the error comes from an `after` thunk that a transfer out of this very
+        -- extent is running: that exit has already happened, `after` must not run a second time.)
+        if (st.winders.head?.map Wind.id) == some id then
+          (.call out [], .reraise p :: k, ev { st with winders := st.winders.tail } "exit-error")
+        else (.raise p, k, ev st "raise-through-left-extent")
     | _ :: k => (.raise p, k, st)
 
 def run : Nat → Ctl → List Frame → St → Outcome × St
@@ -580,7 +592,8 @@ def preludeSrc : String := SteelVerif.Base.preludeSrc ++ "
 (define (transduce l f r) (map f l))"
 
 /-- NOT the specification: `reset` / `shift` as stdlib.scm implements them (Filinski's encoding on top of
-call/cc with ONE mutable meta-continuation cell).  Used only to attribute a disagreement real ≠ S to finding
+the PRIMITIVE call/cc — stdlib.scm does not see the winders wrapper of parameters.scm — with ONE mutable
+meta-continuation cell).  Used only to attribute a disagreement real ≠ S to finding
 K08b: the cell is neither restored when an error leaves a `reset` nor saved/restored by call/cc
 continuations that cross a `reset`. -/
 def implPreludeSrc : String := preludeSrc ++ "
@@ -588,11 +601,11 @@ def implPreludeSrc : String := preludeSrc ++ "
 (define (*abort thunk) (let ((v (thunk))) (*mc* v)))
 (define (*reset thunk)
   (let ((mc *mc*))
-    (call/cc (lambda (k)
+    (%raw-call/cc (lambda (k)
       (begin (set! *mc* (lambda (v) (set! *mc* mc) (k v)))
              (*abort thunk))))))
 (define (*shift f)
-  (call/cc (lambda (k) (*abort (lambda () (f (lambda (v) (*reset (lambda () (k v))))))))))"
+  (%raw-call/cc (lambda (k) (*abort (lambda () (f (lambda (v) (*reset (lambda () (k v))))))))))"
 
 def evalProgram (impl : Bool) (fuel : Nat) (forms : List Sexp) (st : St) : List String × Option String × St :=
   let rec go (fs : List Sexp) (st : St) (vals : List String) : List String × Option String × St :=
